@@ -840,6 +840,23 @@ def r39_find_by_name(text):
         text = text[:m.start()] + f'find_by_name({m.group(1)}, {m.group(3)})' + text[m.end():]
 
 
+def r40_once_chain_collect(text):
+    """`std::iter::once(X).chain(T).collect()` => `once_chain_collect(X, T)`; `A\n.iter()\n.zip(B.into_iter())\n.map(|((N, _), P)| (N.clone(), P))
+    \n.collect()` => `zip_names(A, B)`: external_body helpers of the template (trusted contracts: X followed by the elements of the vector T;
+    the pairs (first component of A[k], B[k]) for k below the shorter length).  Line breaks inside the chain are kept."""
+    n = 0
+    for rx, fn in ((r'\bstd::iter::once\((\w+)\)\s*\.chain\((\w+)\)\s*\.collect\(\)', 'once_chain_collect'),
+                   (r'\b(\w+)\s*\.iter\(\)\s*\.zip\((\w+)\.into_iter\(\)\)\s*\.map\(\|\(\((\w+), _\), (\w+)\)\| \(\3\.clone\(\), \4\)\)\s*\.collect\(\)', 'zip_names')):
+        while True:
+            m = re.search(rx, text)
+            if not m:
+                break
+            n += 1
+            nl = m.group(0).count('\n')
+            text = text[:m.start()] + f'{fn}({m.group(1)}, {m.group(2)})' + '\n' * nl + text[m.end():]
+    return text, n
+
+
 def r10_windows2(text):
     """`for W in X.windows(2) {` => `for w__N in 0..(if X.len() >= 2 { X.len() - 1 } else { 0 }) { let W = [X[w__N], X[w__N + 1]];`
     (Verus has no specification of slice::Windows; for Copy elements W[0], W[1] read the same values)."""
@@ -901,7 +918,7 @@ def r7_param_patterns(text):
     return _apply_edits(text, edits), n
 
 
-RULES = [('R0', r0_visibility_and_stats), ('R1', r1_ref_patterns), ('R7', r7_param_patterns), ('R28', r28_mut_self), ('R8', r8_assert_eq), ('R9', r9_subslice_copy), ('R10', r10_windows2), ('R38', r38_or_pattern_guard), ('R36', r36_chain_collect), ('R39', r39_find_by_name), ('R37', r37_opt_slice), ('R11', r11_collect), ('R12', r12_subslice_to_subslice), ('R13', r13_copied_take), ('R15', r15_iter_all_eq), ('R16', r16_map_collect_tail), ('R17', r17_match_arm_ref_guard), ('R18', r18_bool_bitand), ('R20', r20_iter_skip), ('R21', r21_let_map_collect), ('R21b', r21b_let_chain_map_collect), ('R29', r29_map_index), ('R22b', r22b_extend_array_iter), ('R33', r33_extend_map_closure), ('R34', r34_extend_array_call), ('R22', r22_vec_extend), ('R23', r23_range_copy), ('R24', r24_opaque_iter), ('R25', r25_iter_sum), ('R26', r26_slice_iters), ('R27', r27_add_assign_ref), ('R30', r30_iter_mut_enumerate_take), ('R0b', r0b_dead_const_block), ('R35', r35_closure_shapes), ('R31', r31_iter_mut_enum_fields), ('R32', r32_iter_mut_plain), ('R16b', r16b_into_iter_map_block_collect),
+RULES = [('R0', r0_visibility_and_stats), ('R1', r1_ref_patterns), ('R7', r7_param_patterns), ('R28', r28_mut_self), ('R8', r8_assert_eq), ('R9', r9_subslice_copy), ('R10', r10_windows2), ('R38', r38_or_pattern_guard), ('R36', r36_chain_collect), ('R39', r39_find_by_name), ('R40', r40_once_chain_collect), ('R37', r37_opt_slice), ('R11', r11_collect), ('R12', r12_subslice_to_subslice), ('R13', r13_copied_take), ('R15', r15_iter_all_eq), ('R16', r16_map_collect_tail), ('R17', r17_match_arm_ref_guard), ('R18', r18_bool_bitand), ('R20', r20_iter_skip), ('R21', r21_let_map_collect), ('R21b', r21b_let_chain_map_collect), ('R29', r29_map_index), ('R22b', r22b_extend_array_iter), ('R33', r33_extend_map_closure), ('R34', r34_extend_array_call), ('R22', r22_vec_extend), ('R23', r23_range_copy), ('R24', r24_opaque_iter), ('R25', r25_iter_sum), ('R26', r26_slice_iters), ('R27', r27_add_assign_ref), ('R30', r30_iter_mut_enumerate_take), ('R0b', r0b_dead_const_block), ('R35', r35_closure_shapes), ('R31', r31_iter_mut_enum_fields), ('R32', r32_iter_mut_plain), ('R16b', r16b_into_iter_map_block_collect),
          ('R2', r2_array_literal_loops), ('R3', r3_zip_enumerate)]
 
 
